@@ -228,7 +228,7 @@ def run(ctx):
 
     bfs = cut(res["bfs"], 150 if q else 1500)
     d3 = cut(res.get("d3", []), 1500)
-    retype = cut(res["retype"], 150 if q else 1500)       # quick: the whole family (128 scripts)
+    retype = cut(res["retype"], 150 if q else 1000)       # quick: the whole family (128 scripts)
     over = per_class(res["over"], 4 if q else 12) + (per_class(res["over4"], 6) if not q else [])
     sims = res["sims"]
     fam = bfs + d3 + retype + over
